@@ -1368,7 +1368,14 @@ func (f *failingTagger) Tag(ctx context.Context, d ocispec.Descriptor, ref strin
 	return f.Store.Tag(ctx, d, ref)
 }
 
-func wrapperCase(resolves, graphOK, tagOK bool, srcRef, dstRef string) {
+// failingPreds: a memory source whose Predecessors fails (findRoots' error path)
+type failingPreds struct{ *memory.Store }
+
+func (f failingPreds) Predecessors(context.Context, ocispec.Descriptor) ([]ocispec.Descriptor, error) {
+	return nil, errInjected
+}
+
+func wrapperCase(resolves, rootsOK, graphOK, tagOK bool, srcRef, dstRef string) {
 	ctx := context.Background()
 	id := run.NewID()
 	src := memory.New()
@@ -1379,8 +1386,40 @@ func wrapperCase(resolves, graphOK, tagOK bool, srcRef, dstRef string) {
 		src.Tag(ctx, d, srcRef)
 	}
 	dst := &failingTagger{Store: memory.New(), failPush: !graphOK, failTag: !tagOK}
-	_, err := oras.ExtendedCopy(ctx, src, srcRef, dst, dstRef, oras.DefaultExtendedCopyOptions)
-	obs := "ERR"
+	var gsrc oras.ReadOnlyGraphTarget = src
+	if !rootsOK {
+		gsrc = failingPreds{src}
+	}
+	_, err := oras.ExtendedCopy(ctx, gsrc, srcRef, dst, dstRef, oras.DefaultExtendedCopyOptions)
+	obs := "ERR copy"
+	var ce *oras.CopyError
+	if errors.As(err, &ce) {
+		switch {
+		case ce.Op == "Resolve" || ce.Op == "Tag" || ce.Op == "FindPredecessors":
+			obs = "ERR " + ce.Op + "/" + ce.Origin.String()
+		}
+	}
+	if err != nil {
+		// the first failing step, by the generator's own knowledge of what was made to fail
+		want := "ERR copy"
+		switch {
+		case !resolves:
+			want = "ERR Resolve/source"
+		case !rootsOK:
+			want = "ERR FindPredecessors/source"
+		case !graphOK:
+			want = "ERR copy"
+		case !tagOK:
+			want = "ERR Tag/destination"
+		}
+		if obs != want {
+			run.OracleFail(id, "error-origin", fmt.Sprintf("ExtendedCopy(resolves %v, roots %v, copy %v, tag %v) failed with %q (%v), the first failing step is %q", resolves, rootsOK, graphOK, tagOK, obs, err, want),
+				map[string]any{"wrapper": []any{resolves, rootsOK, graphOK, tagOK, srcRef, dstRef}})
+		}
+	} else if !(resolves && rootsOK && graphOK && tagOK) {
+		run.OracleFail(id, "error-swallowed", fmt.Sprintf("ExtendedCopy(resolves %v, roots %v, copy %v, tag %v) succeeded", resolves, rootsOK, graphOK, tagOK),
+			map[string]any{"wrapper": []any{resolves, rootsOK, graphOK, tagOK, srcRef, dstRef}})
+	}
 	bit := func(b bool) string {
 		if b {
 			return "1"
@@ -1395,7 +1434,7 @@ func wrapperCase(resolves, graphOK, tagOK bool, srcRef, dstRef string) {
 		got, rerr := dst.Resolve(ctx, want)
 		if rerr != nil || got.Digest != d.Digest {
 			run.OracleFail(id, "not-tagged", fmt.Sprintf("ExtendedCopy(%q -> %q) succeeded but %q does not resolve to the given node", srcRef, dstRef, want),
-				map[string]any{"wrapper": []any{resolves, graphOK, tagOK, srcRef, dstRef}})
+				map[string]any{"wrapper": []any{resolves, rootsOK, graphOK, tagOK, srcRef, dstRef}})
 		}
 		// observed from the destination: every candidate reference and what it resolves to
 		// (7 = the given node, as in the model's tag list)
@@ -1414,7 +1453,7 @@ func wrapperCase(resolves, graphOK, tagOK bool, srcRef, dstRef string) {
 		}
 		obs = "OK " + strings.Join(seen, ",")
 	}
-	run.Case(id, fmt.Sprintf("XC %s %s %s %s %s", bit(resolves), bit(graphOK), bit(tagOK), common.Hex(srcRef), common.Hex(dstRef)), obs)
+	run.Case(id, fmt.Sprintf("XC %s %s %s %s %s %s", bit(resolves), bit(rootsOK), bit(graphOK), bit(tagOK), common.Hex(srcRef), common.Hex(dstRef)), obs)
 	run.Count("wrapper")
 }
 
@@ -1590,10 +1629,12 @@ func main() {
 	smallScope(r)
 	coverageFloors()
 	for _, res := range []bool{true, false} {
-		for _, gok := range []bool{true, false} {
-			for _, tok := range []bool{true, false} {
-				for _, dref := range []string{"", "other"} {
-					wrapperCase(res, gok, tok, "v1", dref)
+		for _, rok := range []bool{true, false} {
+			for _, gok := range []bool{true, false} {
+				for _, tok := range []bool{true, false} {
+					for _, dref := range []string{"", "other"} {
+						wrapperCase(res, rok, gok, tok, "v1", dref)
+					}
 				}
 			}
 		}
@@ -1668,8 +1709,8 @@ func replay(path string) {
 		}
 		if w, ok := probe["wrapper"]; ok {
 			var a []any
-			if json.Unmarshal(w, &a) == nil && len(a) == 5 {
-				wrapperCase(a[0].(bool), a[1].(bool), a[2].(bool), a[3].(string), a[4].(string))
+			if json.Unmarshal(w, &a) == nil && len(a) == 6 {
+				wrapperCase(a[0].(bool), a[1].(bool), a[2].(bool), a[3].(bool), a[4].(string), a[5].(string))
 			}
 			continue
 		}
